@@ -19,7 +19,7 @@ WORDS_SUF = [b"", b"ipsum", b"qq zz"]
 # documented false-positive triggers: allowed to suppress an indicator only when they PRECEDE it
 TRIGGERS = [b"version", b"Version=", b"sec.", b"section", b"<t>", b"<w:t>"]
 
-OCT = [1, 9, 10, 99, 100, 199, 200, 254]
+OCT = [0, 1, 9, 10, 99, 100, 199, 200, 249, 250, 254, 255]  # boundary octets; the last octet excludes the documented .0 / .255 forms
 
 
 def instances():
@@ -56,8 +56,8 @@ def describe(tier):
             f"{len(instances())} indicator instances from the documented grammars (IPv4, domains, URLs scheme x host kind x path/query/fragment, e-mails, POSIX "
             "and Windows paths, .exe/.dll names, CreateObject calls with nested parentheses) x EVERY offset 0..12 x neutral delimiters {space, tab, LF} on both "
             f"sides x {len(WORDS_PRE)}x{len(WORDS_SUF)} neutral prefix/suffix words; every documented false-positive trigger {[t.decode() for t in TRIGGERS]} in prefix AND in suffix "
-            "position (a trigger may suppress only when it precedes); additionally ALL 4096 IPv4 addresses with octets from "
-            f"{OCT}, EVERY entry of TOP_LEVEL_DOMAINS x 2 label shapes, CreateObject with unbalanced tails, and valid PE images with 1-3 sections at 4 offsets. "
+            "position (a trigger may suppress only when it precedes); additionally ALL IPv4 addresses with octets from "
+            f"{OCT} (last octet without 0/255), EVERY entry of TOP_LEVEL_DOMAINS x 2 label shapes, CreateObject with unbalanced tails, and valid PE images with 1-3 sections at 4 offsets. "
             "Each input is scanned with the shipped decoders; oracle: a node of the documented type with the canonical value and exactly the instance's "
             "absolute span (sum of starts along undecoded contexts) exists; differential: across all embeddings of one instance the node's "
             "(type, value, label, length, sub-structure) is identical. states = distinct inputs, transitions = embeddings compared per instance, "
@@ -157,7 +157,7 @@ def run_unit(unit, rec):
         rec.sample({"instance": text, "types": list(types), "embeddings": n, "last": data})
     elif kind == "allips":
         o1 = unit[1]
-        for o2, o3, o4 in itertools.product(OCT, repeat=3):
+        for o2, o3, o4 in itertools.product(OCT, OCT, [o for o in OCT if o not in (0, 255)]):
             ip = b"%d.%d.%d.%d" % (o1, o2, o3, o4)
             for pre, suf in ((b"", b""), (b"ip ", b" end"), (b"\tconnect\n", b"\n")):
                 data = pre + ip + suf
